@@ -22,6 +22,7 @@ from ..astutil import (
 from ..cfg import CFG, head_calls
 from ..core import AnalysisError, Mutant
 from ..program import ClassIndex
+from ..exprnorm import has_code
 
 EXPLANATION = (
     "Typestate and resource discipline of biotite.application decided from the "
@@ -737,7 +738,7 @@ def run(ctx):
                     if isinstance(c, ast.Compare) and len(c.ops) == 1 and isinstance(c.comparators[0], ast.Constant) \
                             and c.comparators[0].value == 0 and (
                                 (isinstance(c.left, ast.Name) and c.left.id in codes)
-                                or ast.unparse(c.left).endswith(".returncode") or "get_exit_code()" in ast.unparse(c.left)):
+                                or ast.unparse(c.left).endswith(".returncode") or has_code(c.left, "get_exit_code()")):
                         n_ec += 1
                         raises_t = any(isinstance(b, ast.Raise) for b in st.body)
                         raises_f = any(isinstance(b, ast.Raise) for b in st.orelse)
